@@ -2,6 +2,7 @@ package storekit
 
 import (
 	"fmt"
+	"strings"
 )
 
 const faultTable = "zz_verif_fault"
@@ -51,6 +52,12 @@ func (n *Node) InstallFaultTriggers() {
 // Arm makes the k-th row write from now on fail (k >= 1); Arm(-1) disarms. Resets the counter.
 func (n *Node) Arm(k int) {
 	if _, err := n.DB.Exec(fmt.Sprintf(`UPDATE %s SET k = 0, armed = %d, commitfault = 0`, faultTable, k)); err != nil {
+		if strings.Contains(err.Error(), "database is locked") {
+			// somebody still holds the write lock after the busy timeout: a transaction of the code under test was left
+			// open (the harness itself opens none). Reported by the caller through StillLocked.
+			n.StillLocked = true
+			return
+		}
 		panic(err)
 	}
 }
